@@ -25,8 +25,8 @@ EPS64 = float(np.finfo(np.float64).eps)
 BANDS = [(400.0, 1.0), (1400.0, 8.0), (100.0, 0.25), (327.0, 3.125)]       # (centre MHz, sample rate MHz)
 DMS = [1e-4, -1e-4, 1e-2, -1e-2, 1.0, -1.0, 30.0, -30.0, 1000.0]
 BOUNDS = {
-    "quick": dict(Ns=[1, 2, 3, 8, 12, 15, 16, 32], nchan=[1, 2, 3], dtypes=["complex64", "complex128"]),
-    "thorough": dict(Ns=[1, 2, 3, 5, 7, 8, 9, 12, 15, 16, 25, 32, 48], nchan=[1, 2, 3, 4], dtypes=["complex64", "complex128"]),
+    "quick": dict(Ns=[1, 2, 3, 8, 12, 13, 15, 16, 32], nchan=[1, 2, 3], dtypes=["complex64", "complex128"]),
+    "thorough": dict(Ns=[1, 2, 3, 5, 7, 8, 9, 12, 13, 15, 16, 17, 23, 25, 26, 32, 34, 48], nchan=[1, 2, 3, 4], dtypes=["complex64", "complex128"]),
 }
 REFS = ["none", "center", "bottom", "top", "above", "below", "label", "inf"]
 
